@@ -572,6 +572,13 @@ E2E_CORPUS = [
     # same zone name under two parents (labels A/B and C/B): two records named 'B/Direct Integration', one graph key (open finding D59)
     dict(streams=[S("A/B", "H1", 250, 40, 2100), S("A/B", "C1", 20, 180, 1800), S("C/B", "H2", 200, 80, 1200), S("C/B", "C2", 60, 150, 1450)],
          utilities=[], options={}),
+    # user trees whose root is a pure container (Community / Region above the Site): every record still has its graph set
+    dict(streams=[S("P1", "H1", 250, 40, 2100), S("P1", "C1", 20, 180, 1800), S("P2", "H2", 200, 80, 1200), S("P2", "C2", 60, 150, 1450)], utilities=[], options={},
+         zone_tree=dict(name="Cm", type="Community", children=[dict(name="S1", type="Site", children=[dict(name="P1", type="Process Zone"),
+                                                                                                    dict(name="P2", type="Process Zone")])])),
+    dict(streams=[S("P1", "H1", 250, 40, 2100), S("P1", "C1", 20, 180, 1800), S("P2", "H2", 200, 80, 1200), S("P2", "C2", 60, 150, 1450)], utilities=[], options={},
+         zone_tree=dict(name="R", type="Region", children=[dict(name="Cm", type="Community", children=[
+             dict(name="S1", type="Site", children=[dict(name="P1", type="Process Zone"), dict(name="P2", type="Process Zone")])])])),
     # relative band, severe form: the cold composite [64000.25, 64000, ...] is entirely within 1e-5*|H0| of its first value: the SERVICE raises
     dict(streams=[S("Z0", "H", 290, 40, 64000, 5), S("Z0", "Ctiny", 300, 310, 0.25, 0)], utilities=[], options={}),
 ]
